@@ -128,7 +128,10 @@ def chk_str(prop, got, want, what):
     """got: decoded token ('s', bytes) / PANIC; want: str or PANIC"""
     if want is PANIC:
         if got is not PANIC:
-            return [Problem({prop, 'C14'}, what + ': returned instead of panicking', 'got=%r' % (got,))]
+            out = [Problem({prop, 'C14'}, what + ': returned instead of panicking', 'got=%r' % (got,))]
+            if isinstance(got, tuple) and got[0] == 's' and any(c >= 0x80 for c in got[1]):
+                out.append(Problem({'C15'}, what + ': returned a String that is not valid UTF-8/ASCII (unchecked conversion)', 'bytes=%s' % got[1].hex()))
+            return out
         return []
     if got is PANIC:
         return [Problem({prop, 'C14'}, what + ': panicked on a valid input', 'want=%r' % want)]
